@@ -13,7 +13,10 @@ package main
 //	      cA <id> <name> <alias|~> <roles> <owner|~> <home> <dep|~> <req> <boss|~>     create thing
 //	      uA <id> ... (same fields)                                                    update thing
 //	      uB <id> <label|~>
-//	      dA <id> | dB <id>
+//	      cX/uX <id> <the nine thing fields> <badge> <tag|~> <sponsor> <caps>   create / update through the EXTENDED child
+//	             store things_x (on an existing thing: the thing gains extension data)
+//	      cP/uP <id> <the nine thing fields> <code> <nick|~> <marks>            the same through the PLAIN child store things_p
+//	      dA <id> | dB <id> | dX <id> (DeleteById through the child store things_x: deletes the whole thing)
 //	      lA <id> <owner ids>   SetLinks on things.groups;   lB <id> <thing ids>  SetLinks on owners.members
 //	      (lists: wire strings joined by "," ; "." = empty list)
 //	corruptions: see c09Corrupt
@@ -34,11 +37,14 @@ package main
 
 import (
 	"bufio"
-	"os"
 	"fmt"
+	"os"
 	"regexp"
+	"runtime"
 	"sort"
 	"strings"
+	"sync"
+	"sync/atomic"
 
 	"github.com/openziti/storage/boltz"
 	"go.etcd.io/bbolt"
@@ -105,6 +111,21 @@ func c09Apply(d *c09Db, op string) (err error) {
 			return d.st.a.Create(ctx, c09Thing4(f))
 		case "uA":
 			return d.st.a.Update(ctx, c09Thing4(f), nil)
+		case "cX", "uX":
+			e := &c09ThingX{c09Thing: *c09Thing4(f), Badge: fromWire(f[10]), Tag: c09Opt(f[11]), Sponsor: fromWire(f[12]),
+				Caps: c09ParseList(f[13])}
+			if f[0] == "cX" {
+				return d.st.ax.Create(ctx, e)
+			}
+			return d.st.ax.Update(ctx, e, nil)
+		case "cP", "uP":
+			e := &c09ThingP{c09Thing: *c09Thing4(f), Code: fromWire(f[10]), Nick: c09Opt(f[11]), Marks: c09ParseList(f[12])}
+			if f[0] == "cP" {
+				return d.st.ap.Create(ctx, e)
+			}
+			return d.st.ap.Update(ctx, e, nil)
+		case "dX":
+			return d.st.ax.DeleteById(ctx, fromWire(f[1]))
 		case "dA":
 			return d.st.a.DeleteById(ctx, fromWire(f[1]))
 		case "dB":
@@ -176,7 +197,8 @@ func c09Classify(msg string, fixed bool) string {
 	for _, p := range c09Pats {
 		if m := p.re.FindStringSubmatch(msg); m != nil {
 			idx, subj := p.build(m)
-			parts := []string{p.class, idx}
+			// the code names a child store's index by the parent's entity type; the model by the child store
+			parts := []string{p.class, c09ModelIdx(idx)}
 			for _, s := range subj {
 				if s == "(nil)" {
 					parts = append(parts, "~")
@@ -281,11 +303,11 @@ func c09Exec(line string) string {
 	if st != c.state {
 		return "state-mismatch " + st
 	}
-	stores := []boltz.Store{d.st.a, d.st.b}
+	stores := d.st.all()
 	var parts []string
 	var d2 string
 	if c.mode == "tx1r" {
-		stores = []boltz.Store{d.st.b, d.st.a}
+		stores = []boltz.Store{d.st.b, d.st.ap, d.st.ax, d.st.a}
 	}
 	if c.mode == "tx1" || c.mode == "tx1r" {
 		_ = d.db.Update(func(tx *bbolt.Tx) error {
@@ -379,6 +401,14 @@ var c09Aliases = []string{"x1", "x2", "x3"}
 var c09Roles = []string{"r1", "r2", "r3", "r11"}
 var c09Labels = []string{"l1", "l2", "l3"}
 
+// values of the child stores' fields
+var c09Badges = []string{"g1", "g2", "g3", "g4"}
+var c09Tags = []string{"t1", "t2"}
+var c09Caps = []string{"c1", "c2", "c11"}
+var c09Codes = []string{"k1", "k2", "k3", "k4"}
+var c09Nicks = []string{"q1", "q2"}
+var c09Marks = []string{"m1", "m2"}
+
 func c09OptPick(r *rng, pool []string, nilNum, den int) string {
 	if r.chance(nilNum, den) {
 		return "~"
@@ -447,8 +477,39 @@ func (g *c09GenState) thingOp(r *rng, kind, id string, emptyAlias bool) string {
 		// mostly a name derived from the id, so that creations rarely collide
 		name = "n" + id[1:]
 	}
-	return fmt.Sprintf("%s %s %s %s %s %s %s %s %s %s", kind, toWire(id), toWire(name), alias,
+	op := fmt.Sprintf("%s %s %s %s %s %s %s %s %s %s", kind, toWire(id), toWire(name), alias,
 		c09List(c09Subset(r, c09Roles)), owner, toWire(g.pickB(r)), dep, toWire(g.pickB(r)), boss)
+	switch kind {
+	case "cX", "uX":
+		// through the extended child store: badge (mostly derived from the id, so that creations rarely collide),
+		// tag, sponsor, caps
+		badge := pick(r, c09Badges)
+		if r.chance(2, 3) {
+			badge = "g" + id[1:]
+		}
+		op += fmt.Sprintf(" %s %s %s %s", toWire(badge), c09OptPick(r, c09Tags, 1, 2), toWire(g.pickB(r)),
+			c09List(c09Subset(r, c09Caps)))
+	case "cP", "uP":
+		code := pick(r, c09Codes)
+		if r.chance(2, 3) {
+			code = "k" + id[1:]
+		}
+		op += fmt.Sprintf(" %s %s %s", toWire(code), c09OptPick(r, c09Nicks, 1, 2), c09List(c09Subset(r, c09Marks)))
+	}
+	return op
+}
+
+// which store a thing is created / updated through: the parent (the thing stays or becomes parent-only data plus
+// whatever child data it has), the extended or the plain child store
+func c09ThingKind(r *rng, verb string) string {
+	switch k := r.intn(10); {
+	case k < 4:
+		return verb + "A"
+	case k < 7:
+		return verb + "X"
+	default:
+		return verb + "P"
+	}
 }
 
 func c09GenHistory(r *rng, n int, emptyAlias bool) []string {
@@ -467,21 +528,26 @@ func c09GenHistory(r *rng, n int, emptyAlias bool) []string {
 	}
 	for _, a := range c09AIds {
 		if r.chance(1, 2) {
-			h = append(h, g.thingOp(r, "cA", a, emptyAlias))
+			h = append(h, g.thingOp(r, c09ThingKind(r, "c"), a, emptyAlias))
 			g.liveA[a] = true
 		}
 	}
 	for i := 0; i < n; i++ {
 		switch k := r.intn(20); {
 		case k < 7:
+			// on a live id a creation through a child store gives the thing that store's data
 			id := pick(r, c09AIds)
-			h = append(h, g.thingOp(r, "cA", id, emptyAlias))
+			h = append(h, g.thingOp(r, c09ThingKind(r, "c"), id, emptyAlias))
 			g.liveA[id] = true
 		case k < 11:
-			h = append(h, g.thingOp(r, "uA", g.pickA(r), emptyAlias))
+			h = append(h, g.thingOp(r, c09ThingKind(r, "u"), g.pickA(r), emptyAlias))
 		case k < 12:
 			id := g.pickA(r)
-			h = append(h, "dA "+toWire(id))
+			if r.chance(1, 4) {
+				h = append(h, "dX "+toWire(id))
+			} else {
+				h = append(h, "dA "+toWire(id))
+			}
 			delete(g.liveA, id)
 		case k < 13:
 			h = append(h, "dB "+toWire(pick(r, c09BIds)))
@@ -559,6 +625,47 @@ func c09Catalogue() []string {
 			cs = append(cs, "EA things "+w(id)+" minions "+w(v), "ED things "+w(id)+" minions "+w(v))
 		}
 	}
+	// the child stores of things: their indexes, their fields, and membership itself
+	for _, uq := range []struct {
+		idx  string
+		pool []string
+	}{{"things_x.badge", c09Badges}, {"things_x.tag", c09Tags}, {"things_p.code", c09Codes}, {"things_p.nick", c09Nicks}} {
+		p := strings.SplitN(uq.idx, ".", 2)
+		for _, k := range append(append([]string{}, uq.pool...), "zz") {
+			cs = append(cs, "UD "+uq.idx+" "+w(k))
+			for _, id := range aIds {
+				cs = append(cs, "UP "+uq.idx+" "+w(k)+" "+w(id))
+			}
+		}
+		for _, id := range c09AIds {
+			for _, v := range append([]string{"~"}, uq.pool[:2]...) {
+				cs = append(cs, "EF "+p[0]+" "+w(id)+" "+p[1]+" "+c09W(v))
+			}
+		}
+	}
+	for _, sx := range []struct {
+		idx  string
+		pool []string
+	}{{"things_x.caps", c09Caps}, {"things_p.marks", c09Marks}} {
+		p := strings.SplitN(sx.idx, ".", 2)
+		for _, k := range append(append([]string{}, sx.pool...), "zz") {
+			cs = append(cs, "SK "+sx.idx+" "+w(k), "SX "+sx.idx+" "+w(k), "SJ "+sx.idx+" "+w(k))
+			for _, id := range aIds {
+				cs = append(cs, "SA "+sx.idx+" "+w(k)+" "+w(id), "SD "+sx.idx+" "+w(k)+" "+w(id))
+			}
+			for _, id := range c09AIds {
+				cs = append(cs, "EA "+p[0]+" "+w(id)+" "+p[1]+" "+w(k), "ED "+p[0]+" "+w(id)+" "+p[1]+" "+w(k))
+			}
+		}
+	}
+	for _, id := range c09AIds {
+		for _, v := range append([]string{"~"}, bIds...) {
+			cs = append(cs, "EF things_x "+w(id)+" sponsor "+c09W(v))
+		}
+		for _, st := range []string{c09ThingsX, c09ThingsP} {
+			cs = append(cs, "XD "+st+" "+w(id), "XC "+st+" "+w(id))
+		}
+	}
 	for _, id := range c09BIds {
 		for _, v := range append([]string{"~"}, c09Labels...) {
 			cs = append(cs, "EF owners "+w(id)+" label "+c09W(v))
@@ -579,10 +686,48 @@ func c09W(v string) string {
 	return toWire(v)
 }
 
-func c09EmitCase(out *bufio.Writer, mode string, history, corrupt []string) {
-	d, st := c09Prepare(history, corrupt)
-	d.close()
-	fmt.Fprintf(out, "%s @H %s @C %s @S %s\n", mode, strings.Join(history, ";"), strings.Join(corrupt, ";"), st)
+// c09EmitCase queues a case; c09Flush computes the states the real code produces (history + corruptions on a
+// fresh database each) on several goroutines and prints the case lines in the order they were queued.
+type c09Pending struct {
+	mode             string
+	history, corrupt []string
+}
+
+var c09Queue []c09Pending
+
+func c09EmitCase(_ *bufio.Writer, mode string, history, corrupt []string) {
+	c09Queue = append(c09Queue, c09Pending{mode, append([]string{}, history...), append([]string{}, corrupt...)})
+}
+
+func c09Flush(out *bufio.Writer) {
+	lines := make([]string, len(c09Queue))
+	workers := runtime.NumCPU()
+	if workers > 8 {
+		workers = 8
+	}
+	var wg sync.WaitGroup
+	next := int64(-1)
+	for w := 0; w < workers; w++ {
+		wg.Add(1)
+		go func() {
+			defer wg.Done()
+			for {
+				i := int(atomic.AddInt64(&next, 1))
+				if i >= len(c09Queue) {
+					return
+				}
+				c := c09Queue[i]
+				d, st := c09Prepare(c.history, c.corrupt)
+				d.close()
+				lines[i] = fmt.Sprintf("%s @H %s @C %s @S %s\n", c.mode, strings.Join(c.history, ";"), strings.Join(c.corrupt, ";"), st)
+			}
+		}()
+	}
+	wg.Wait()
+	for _, l := range lines {
+		out.WriteString(l)
+	}
+	c09Queue = nil
 }
 
 // the fixed state of the thorough tier (4 things, 4 owners)
@@ -596,6 +741,15 @@ var c09FixedHistory = []string{
 	"cB " + toWire("b11") + " ~",
 	// a11 shares every list with a1 (role r1, owner / home b1, boss a1, member of b1): ids in a prefix relation
 	"cA " + toWire("a11") + " " + toWire("n4") + " ~ " + c09List([]string{"r1"}) + " " + toWire("b1") + " " + toWire("b1") + " ~ " + toWire("b1") + " " + toWire("a1"),
+	// mixed population: a1 (the smallest id) stays parent-only, a11 gains extension data, a2 plain-child data, a3 both
+	"cX " + toWire("a11") + " " + toWire("n4") + " ~ " + c09List([]string{"r1"}) + " " + toWire("b1") + " " + toWire("b1") + " ~ " + toWire("b1") + " " + toWire("a1") +
+		" " + toWire("g4") + " " + toWire("t1") + " " + toWire("b1") + " " + c09List([]string{"c1", "c2"}),
+	"cP " + toWire("a2") + " " + toWire("n2") + " ~ " + c09List([]string{"r2"}) + " " + toWire("b1") + " " + toWire("b2") + " ~ " + toWire("b2") + " " + toWire("a1") +
+		" " + toWire("k2") + " ~ " + c09List([]string{"m1"}),
+	"cX " + toWire("a3") + " " + toWire("n3") + " " + toWire("x2") + " " + c09List([]string{"r11"}) + " ~ " + toWire("b2") + " " + toWire("b3") + " " + toWire("b3") + " " + toWire("a1") +
+		" " + toWire("g3") + " ~ " + toWire("b2") + " " + c09List([]string{"c1"}),
+	"cP " + toWire("a3") + " " + toWire("n3") + " " + toWire("x2") + " " + c09List([]string{"r11"}) + " ~ " + toWire("b2") + " " + toWire("b3") + " " + toWire("b3") + " " + toWire("a1") +
+		" " + toWire("k3") + " " + toWire("q1") + " " + c09List([]string{"m1", "m2"}),
 	"lA " + toWire("a1") + " " + c09List([]string{"b1", "b11", "b2"}),
 	"lA " + toWire("a11") + " " + c09List([]string{"b1"}),
 	"lA " + toWire("a2") + " " + c09List([]string{"b2"}),
@@ -656,13 +810,15 @@ func c09FixedCatalogue() []string {
 }
 
 func c09Gen(tier string, seed uint64, out *bufio.Writer) {
+	defer c09Flush(out)
 	r := newRng(seed)
 	cat := c09Catalogue()
 	// links and back-references are a small part of the catalogue but the part with the most interplay
 	var focus []string
 	for _, c := range cat {
 		if strings.Contains(c, " groups ") || strings.Contains(c, " members ") || strings.Contains(c, " minions ") ||
-			strings.Contains(c, " things 6") || strings.Contains(c, " residents ") || strings.HasPrefix(c, "S") {
+			strings.Contains(c, " things 6") || strings.Contains(c, " residents ") || strings.HasPrefix(c, "S") ||
+			strings.Contains(c, "things_x") || strings.Contains(c, "things_p") {
 			focus = append(focus, c)
 		}
 	}
